@@ -5,7 +5,7 @@ Workload, faults and oracles: DESIGN section 3, C04.
 
 import math
 
-from .common import (rand_clock, BaseHooks, V, finite, fnum, is_qmat, key, logspace_sigma, np, qalg,
+from .common import (gens, rand_clock, BaseHooks, V, finite, fnum, is_qmat, key, logspace_sigma, np, qalg,
                      round_sig, sub_rng)
 
 PROP = "C04"
@@ -39,7 +39,13 @@ def gen_system(R, nmax):
         if n >= 2 and mode == "mixed" and R.random() < 0.5:
             # Hermitian indefinite with a tiny or zero leading diagonal entry: symmetric elimination
             # WITHOUT pivoting is unstable here, with pivoting it is harmless
+            A0 = A
             A = {"gen": "set00", "of": A, "v": R.choice([1e-9, 1e-12, 0.0, 1e-6])}
+            # ... as long as the modified matrix stays well conditioned (for a diagonal or reducible
+            # matrix the replaced entry IS an eigenvalue: cond 1e9, outside what the oracles are
+            # calibrated for - DESIGN 6.3)
+            if qalg.cond(gens.build(A)) > 1e3:
+                A = A0
     elif fam == "unitary":
         A = {"gen": "unitary", "n": n, "seed": s}
     elif fam == "cI":
